@@ -102,10 +102,10 @@ NA = {}
 
 # additions of the later build rounds: (appended to the technique, appended to the level text)
 EXTRA = {
- 'C01': ('; rst7 / gro templates folded through locals, LAMMPS write_box / parse_box evaluated as whole functions on a generic triclinic cell',
-         ''),
- 'C02': ('; cursor update of array-backed readers evaluated as a linear / min form; capacity of every buffer handed to read_xtc / read_trr against the atom count the reader writes (path-compatible reaching allocations)',
-         ' Buffers handed to the XDR readers hold as many atoms as the reader writes on every path (the TRR stride buffer does not: known finding).'),
+ 'C01': ('; rst7 / gro templates folded through locals, LAMMPS write_box / parse_box evaluated as whole functions on a generic triclinic cell; abstract evaluation (sa/tensym.py, sa/ttext.py, sa/writers.py, sa/e2e.py) of writer and reader of the text formats on symbolic frames: write() recorded as pieces of text, read() / _parse / PdbStructure evaluated on a model file of those pieces; Trajectory.save_<fmt> -> load_<fmt> end to end with symbolic unit conversion',
+         ' For xyz, mdcrd, lammpstrj, gro, rst7 and PDB the coordinates, cell and time read back from the text written are, by value, the ones that went in (also for values that fill their fields, 1-4 and 10 atoms, triangular and concrete cells), the records sit in the columns of the published tables, and save_<fmt> followed by load_<fmt> returns the saved coordinates in nm.'),
+ 'C02': ('; cursor update of array-backed readers evaluated as a linear / min form; capacity of every buffer handed to read_xtc / read_trr against the atom count the reader writes (path-compatible reaching allocations); every read_as_traj, load_pdb / load_pdbx, the text readers\' read / seek / tell, HDF5 / NetCDF read on model array stores and the XTC / TRR _read evaluated on model files over sequences of calls',
+         ' Buffers handed to the XDR readers hold as many atoms as the reader writes on every path (the TRR stride buffer does not: known finding). Sequences of read(n, stride, atom_indices) / seek / tell on 7-frame model files return the frames, atoms, cell and time rows of the definition and leave the cursor at the end of the window consumed (text formats, HDF5, NetCDF, XTC / TRR with and without cached offsets: the XTC cached-offset end of file is a known finding).'),
  'C03': ('; tensor value numbering of join / stack / slice / atom_slice / center_coordinates on model trajectories (sa/tensym.py)',
          " For join, stack, slice and atom_slice every array of the result is shown, element for element on model trajectories, to be the numpy concatenation / indexing of the operands' arrays; cached traces - where carried - belong to the frames of the result and to frames centred on the geometric centre."),
  'C04': ('; codec tables (bond-type floats, element pickle key); Topology / Chain / Residue / Atom instantiated from their source and copy / subset / join / insert / delete evaluated on a model topology',
@@ -128,14 +128,14 @@ EXTRA = {
          ''),
  'C14': ('; baker_hubbard / wernet_nilsson evaluated on an exact-rational threshold world; _get_bond_triplets on a model topology; hydrogen placement and sentinel-indexed reads with the path conditions in force',
          ' The hydrogen-bond criteria are decided on worlds that sit on the thresholds (distance = cutoff, angle = cutoff, presence = freq, cone met with equality).'),
- 'C15': ('; compute_dssp and the backbone index arrays evaluated on seven model residues',
+ 'C15': ('; compute_dssp and the backbone index arrays evaluated on seven model residues; the state -> character map and the output offset of dssp() by value numbering (switch statements executed)',
          ''),
  'C16': ('; tensor value numbering (sa/tensym.py) of the whole-array descriptors on a generic instance of every axis, compute_contacts evaluated on a model topology of unequal residues, RDF functions with histogram / distance calls summarised',
          ' Also decided by tensor evaluation: inertia tensor (both implementations), Q tensor and nematic order, dipole moments (sign included), density through cell lengths and angles, squareform, the chunk partition and weights of compute_rdf_t.'),
- 'C17': ('; tensor evaluation of the unitcell_vectors getter / setter on every data-dependent path; lengths and angles from the same object at every call site; box vectors and the LAMMPS box (writer, reader, their composition) by whole-function evaluation',
+ 'C17': ('; tensor evaluation of the unitcell_vectors getter / setter on every data-dependent path; lengths and angles from the same object at every call site; box vectors and the LAMMPS box (writer, reader, their composition) by whole-function evaluation; unitcell_volumes against the determinant of the real unitcell_vectors property (normal form, else numeric identity test of the two expressions)',
          ''),
  'C18': ("; freshness of the arrays handed out by read() over the class's own methods; seek() as a path interpreter over (position, offset, length) for whence x sign of offset, helpers interpreted in place",
          ' read() never hands out (a view of) an array the reader keeps (scratch buffers, caches).'),
- 'C19': ('; argument-only refusals before the first-write initialisation; reachability of the atom-count refusal',
-         ''),
+ 'C19': ('; argument-only refusals before the first-write initialisation; reachability of the atom-count refusal; streaming text writers evaluated on symbolic frames (one call vs several calls, piece by piece); HDF5 / NetCDF write on model array stores (partition equivalence, ragged later writes refused without a trace)',
+         ' For xyz, mdcrd, lammpstrj, gro the text of n frames written in k calls equals the text of one call; for HDF5 / NetCDF k calls leave the arrays and counter of one call, and a later write with another atom count or with time / cell added or dropped is refused and changes nothing.'),
 }
